@@ -101,14 +101,15 @@ pub(crate) fn check_dns_entry_new(class: u16) {
     assert!(e.cache_flush == (class & 0x8000 != 0));
 }
 
-/// Known-answer suppression threshold on address records (fixed names).
-pub(crate) fn check_suppressed_by_answer(my_ttl: u32, ka_ttl: u32, a: u32, b: u32) {
-    let mine = DnsAddress::new("h.local.", RRType::A, CLASS_IN | CLASS_CACHE_FLUSH, my_ttl,
+/// Known-answer suppression threshold on address records (fixed names).  The class fields are free: "same record"
+/// means same class without regard to the cache-flush bit (a known answer never carries it, RFC 6762 10.2; K15).
+pub(crate) fn check_suppressed_by_answer(my_ttl: u32, ka_ttl: u32, a: u32, b: u32, my_class: u16, ka_class: u16) {
+    let mine = DnsAddress::new("h.local.", RRType::A, my_class, my_ttl,
         IpAddr::V4(Ipv4Addr::from(a)), InterfaceId::default());
-    let theirs = DnsAddress::new("h.local.", RRType::A, CLASS_IN | CLASS_CACHE_FLUSH, ka_ttl,
+    let theirs = DnsAddress::new("h.local.", RRType::A, ka_class, ka_ttl,
         IpAddr::V4(Ipv4Addr::from(b)), InterfaceId::default());
     let s = mine.suppressed_by_answer(&theirs);
-    if a != b {
+    if a != b || (my_class & 0x7FFF) != (ka_class & 0x7FFF) {
         assert!(!s); // a different record never suppresses
     } else {
         if 2 * (ka_ttl as u64) > my_ttl as u64 { assert!(s); }
@@ -199,5 +200,5 @@ mod proofs {
     #[kani::proof] #[kani::unwind(10)] #[kani::stub(crate::current_time_millis, stub_now)] fn kani_compare_address() { check_compare_address(kani::any(), kani::any(), kani::any(), kani::any(), kani::any(), kani::any()); }
     #[kani::proof] #[kani::unwind(4)] fn kani_be_bytes_cmp() { check_be_bytes_cmp(kani::any(), kani::any()); }
     #[kani::proof] fn kani_rrtype_cmp() { check_rrtype_cmp(kani::any(), kani::any()); }
-    #[kani::proof] #[kani::unwind(10)] #[kani::stub(crate::current_time_millis, stub_now)] fn kani_suppressed_by_answer() { check_suppressed_by_answer(kani::any(), kani::any(), kani::any(), kani::any()); }
+    #[kani::proof] #[kani::unwind(10)] #[kani::stub(crate::current_time_millis, stub_now)] fn kani_suppressed_by_answer() { check_suppressed_by_answer(kani::any(), kani::any(), kani::any(), kani::any(), kani::any(), kani::any()); }
 }
